@@ -48,6 +48,11 @@ impl VarInt {
     pub const fn into_inner(self) -> u64 {
         self.0
     }
+    /// quinn: `unsafe fn from_u64_unchecked`
+    #[allow(clippy::missing_safety_doc)]
+    pub const unsafe fn from_u64_unchecked(x: u64) -> Self {
+        VarInt(x)
+    }
 }
 impl From<VarInt> for u64 {
     fn from(v: VarInt) -> u64 {
@@ -57,6 +62,34 @@ impl From<VarInt> for u64 {
 impl From<u32> for VarInt {
     fn from(v: u32) -> Self {
         VarInt(v as u64)
+    }
+}
+impl From<u8> for VarInt {
+    fn from(v: u8) -> Self {
+        VarInt(v as u64)
+    }
+}
+impl From<u16> for VarInt {
+    fn from(v: u16) -> Self {
+        VarInt(v as u64)
+    }
+}
+impl TryFrom<u64> for VarInt {
+    type Error = VarIntBoundsExceeded;
+    fn try_from(v: u64) -> Result<Self, VarIntBoundsExceeded> {
+        VarInt::from_u64(v)
+    }
+}
+impl TryFrom<usize> for VarInt {
+    type Error = VarIntBoundsExceeded;
+    fn try_from(v: usize) -> Result<Self, VarIntBoundsExceeded> {
+        VarInt::from_u64(v as u64)
+    }
+}
+impl TryFrom<u128> for VarInt {
+    type Error = VarIntBoundsExceeded;
+    fn try_from(v: u128) -> Result<Self, VarIntBoundsExceeded> {
+        VarInt::from_u64(v.try_into().map_err(|_| VarIntBoundsExceeded)?)
     }
 }
 impl fmt::Display for VarInt {
@@ -80,6 +113,57 @@ impl From<StreamId> for VarInt {
 impl fmt::Display for StreamId {
     fn fmt(&self, f: &mut fmt::Formatter<'_>) -> fmt::Result {
         write!(f, "stream {}", self.0)
+    }
+}
+impl From<VarInt> for StreamId {
+    fn from(v: VarInt) -> StreamId {
+        StreamId(v.0)
+    }
+}
+
+/// Which side of a connection (same discriminants as quinn's).
+#[derive(Debug, Copy, Clone, Eq, PartialEq, Hash)]
+pub enum Side {
+    Client = 0,
+    Server = 1,
+}
+impl Side {
+    pub fn is_client(self) -> bool {
+        self == Side::Client
+    }
+    pub fn is_server(self) -> bool {
+        self == Side::Server
+    }
+}
+
+/// Directionality of a stream (same discriminants as quinn's).
+#[derive(Debug, Copy, Clone, Eq, PartialEq, Hash)]
+pub enum Dir {
+    Bi = 0,
+    Uni = 1,
+}
+
+// the accessors of quinn::StreamId (a change to the adapter may use any of them)
+impl StreamId {
+    pub fn new(initiator: Side, dir: Dir, index: u64) -> Self {
+        StreamId((index << 2) | ((dir as u64) << 1) | initiator as u64)
+    }
+    pub fn initiator(self) -> Side {
+        if self.0 & 0x1 == 0 {
+            Side::Client
+        } else {
+            Side::Server
+        }
+    }
+    pub fn dir(self) -> Dir {
+        if self.0 & 0x2 == 0 {
+            Dir::Bi
+        } else {
+            Dir::Uni
+        }
+    }
+    pub fn index(self) -> u64 {
+        self.0 >> 2
     }
 }
 
@@ -334,6 +418,29 @@ impl SendStream {
             }
             Poll::Ready(Ok(()))
         })
+    }
+
+    /// quinn: `async fn write_all`
+    pub fn write_all<'a>(&'a mut self, buf: &'a [u8]) -> impl Future<Output = Result<(), WriteError>> + Send + 'a {
+        let mut at = 0usize;
+        std::future::poll_fn(move |cx| {
+            while at < buf.len() {
+                match self.write_inner(cx, &buf[at..]) {
+                    Poll::Ready(Ok(n)) => at += n,
+                    Poll::Ready(Err(e)) => return Poll::Ready(Err(e)),
+                    Poll::Pending => return Poll::Pending,
+                }
+            }
+            Poll::Ready(Ok(()))
+        })
+    }
+
+    /// quinn: stream priorities (no effect on what is written)
+    pub fn set_priority(&self, _priority: i32) -> Result<(), ClosedStream> {
+        Ok(())
+    }
+    pub fn priority(&self) -> Result<i32, ClosedStream> {
+        Ok(0)
     }
 
     pub fn finish(&mut self) -> Result<(), ClosedStream> {
